@@ -45,8 +45,10 @@ ASSUMPTIONS = [
     f"lengths: relative {x.LEN_TOL} (library TOL); arcs: third point within {x.ARC_TOL} * radius of the image circle",
     f"OnCurve edges: control points within {x.CURVE_TOL} * chord, length within {10 * x.CURVE_TOL} relative (their end "
     "parameters come from scipy L-BFGS-B on a non-smooth objective; measured worst case 9.2e-9 / 1.4e-8 over 3000 cases)",
-    "scale ratios are positive: 0.2..5 for one step, 0.5..2 per step in compositions; features stay >= 100 x the library's "
-    "absolute TOL = 1e-7 (cases whose smallest arc or vertex distance would come closer are counted, not judged)",
+    "scale ratios are positive: 0.2..5 for one step (1 in 5: a unit conversion 1e-3, 1e-2, 1e2, 1e3), 0.5..2 per step in "
+    "compositions; features stay >= 100 x the library's absolute TOL = 1e-7: a single down-scaling is capped so that the "
+    "smallest vertex distance stays >= 1e-5 and the smallest arc's |arm x arm| >= 1e-5, other cases that would come "
+    "closer are counted, not judged; every comparison is relative to the coordinates/chords/radii of the transformed geometry",
     "default origins (origin=None) are used only for classes that inherit ElementBase.rotate/scale (documented: the "
     "entity's center, read through the public .center just before the step) and for mirror (documented: [0, 0, 0])",
     "block numbering after mirror: kept or bottom/top swapped are both accepted (handedness of the result is C11's "
@@ -81,8 +83,7 @@ def tf_facts(facts: dict, ap: x.Applied) -> dict:
 
 def guard(g0: x.Geo, s: float, ctx: Ctx) -> bool:
     """True if the case keeps clear of the library's absolute tolerance (1e-7) after scaling"""
-    smin = min(1.0, s)
-    if x.arc_margin(g0) * smin * smin < 1e-5 or x.min_separation(g0) * smin < 1e-5:
+    if x.near_tol(g0, s):
         ctx.label("guard:near-library-TOL")
         return False
     return True
@@ -119,6 +120,9 @@ def make_check_tf(ent: x.Ent, tkind: str):
         shared = x.shared_corners(add0)
         g0 = x.geo_of(add0, facts, "base")
         e1 = ent.build(p)
+        tf, capped = x.cap_scale(tf, g0)
+        if capped:
+            ctx.label("ratio=capped")
         ap = x.apply_tf(e1, tf, facts, ent.center_covariant)
         facts = tf_facts(facts, ap)
         if not guard(g0, ap.s, ctx):
@@ -219,6 +223,9 @@ def make_check_copy(ent: x.Ent):
                                     cause="id-based-geometry-name" if only_spheres else None, undefined=new[:3], stage="write"))
 
         # independence: transform the copy, look at the original again; the transformed copy obeys the law
+        tf, capped = x.cap_scale(tf, g0)
+        if capped:
+            ctx.label("ratio=capped")
         ap = x.apply_tf(cp, tf, facts, ent.center_covariant)
         tfacts = tf_facts(facts, ap)
         g0b = x.geo_of(ent.realize(e0, I4, aux), facts, "base")
@@ -299,6 +306,9 @@ def _curve_geo(curve, which):
         "disc": np.array(curve.discretize(), dtype=float),
         "length": float(curve.length),
         "sub": float(curve.get_length(*sub)),
+        # the parameter found for a point of the curve (what OnCurve edges are clipped with)
+        "closest": np.array([[float(curve.get_closest_param(curve.get_point(t)))] for t in params[1:-1:2]] or [[0.0]]),
+        "span": float(hi - lo),
     }
     if which == "circle":
         g["normal"] = np.array(curve.normal, dtype=float)
@@ -348,6 +358,11 @@ def check_curve(which, tkind):
         for k in ("length", "sub"):
             if abs(g1[k] - ap.s * g0[k]) > x.LEN_TOL * ap.s * g0[k] + 1e-12:
                 raise Violation("edge-length", f"{k}: {g1[k]} != {ap.s} * {g0[k]}", edge_kind="curve", **facts)
+        # points of the curve are their own closest points: the parameter found for them does not depend on placement
+        # (tolerance: the library's searches stop at about 1e-8 of the span; 1e-5 leaves a margin of 1000)
+        if g1["closest"].shape != g0["closest"].shape or np.max(np.abs(g1["closest"] - g0["closest"])) > 1e-5 * g0["span"]:
+            raise Violation("closest-parameter", f"get_closest_param of points of the curve: {g0['closest'].ravel().tolist()} before, "
+                            f"{g1['closest'].ravel().tolist()} after", edge_kind="curve", **facts)
         if which == "circle":
             want = rm.unit(rm.apply_dir(ap.M, g0["normal"]))
             got = rm.unit(g1["normal"])
@@ -447,6 +462,26 @@ def check_array(tkind):
 ALL_TK = ("translate", "rotate", "scale", "mirror", "compose", "copy")
 THOROUGH_X = 50
 
+_ID = {"ang": 0.0, "ax": [1.0, 0.0, 0.0], "o": [0.0, 0.0, 0.0], "size": 1.0}
+_LIN = {"curve": "linear", "pts": [[0.25, 0.1, 0.0], [0.5, 0.2, 1.0], [0.75, 0.1, 2.0]], "extend": False, "ext": [0.0, 0.0]}
+_SQ = [[-0.5, -0.5, 0.0], [0.5, -0.5, 0.0], [0.5, 0.5, 0.0], [-0.5, 0.5, 0.0]]
+
+
+def _unit_conversions(make):
+    """enumerated: mm <-> m by method and by list, about an origin != 0"""
+    return [make({"k": "scale", "via": via, "ratio": r, "origin": [1.0, -2.0, 0.5]}) for r in (1e-3, 1e3) for via in ("m", "l")]
+
+
+FIXED = {
+    "C09/curve-linear/scale": _unit_conversions(lambda t: {"frame": _ID, "spec": _LIN, "tf": [t]}),
+    "C09/curve-splinei/scale": _unit_conversions(lambda t: {"frame": _ID, "spec": dict(_LIN, curve="splinei"), "tf": [t]}),
+    "C09/face-oncurve/scale": _unit_conversions(lambda t: {"ent": {"frame": _ID, "quad": _SQ, "proj": None, "edges": [
+        dict(_LIN, kind="oncurve", n=4, repr="spline"), None, dict(_LIN, kind="oncurve", n=3, repr="polyLine", curve="splinei"), None]},
+        "tf": [t]}),
+    "C09/face-spline/scale": _unit_conversions(lambda t: {"ent": {"frame": _ID, "quad": _SQ, "proj": None, "edges": [
+        {"kind": "spline", "pts": _LIN["pts"]}, None, None, None]}, "tf": [t]}),
+}
+
 CELLS = []
 for _tk in ALL_TK:
     CELLS.append(Cell(f"C09/point/{_tk}", point_case(_tk), check_point(_tk), 40, 2000,
@@ -455,7 +490,8 @@ for _tk in ALL_TK:
                       f"Array of 2-6 points, {_tk}: points = M(points), arguments untouched"))
     for _w in x.CURVES:
         CELLS.append(Cell(f"C09/curve-{_w}/{_tk}", curve_case(_w, _tk), check_curve(_w, _tk), 30, 1500,
-                          f"{_w} curve, {_tk}: get_point at 9 fixed parameters, discretize(), length and a partial length"))
+                          f"{_w} curve, {_tk}: get_point at 9 fixed parameters, discretize(), length, a partial length, "
+                          "closest parameter of its own points", FIXED.get(f"C09/curve-{_w}/{_tk}")))
 CELLS.append(Cell("C09/helpers/functions", helper_case(), check_functions, 100, 5000,
                   "functions.rotate/scale/mirror: result = R-AFFINE image, argument arrays bit-identical"))
 
@@ -464,4 +500,4 @@ for _name, _ent in ENTS.items():
         _check = make_check_copy(_ent) if _tk == "copy" else make_check_tf(_ent, _tk)
         _q = _ent.quick if _tk != "copy" else max(2, _ent.quick // 2)
         CELLS.append(Cell(f"C09/{_name}/{_tk}", mesh_case(_ent, _tk), _check, _q, _q * THOROUGH_X,
-                          f"{_ent.family} {_name}, {_tk}: G(T x) = M_T G(x) after Mesh.assemble()"))
+                          f"{_ent.family} {_name}, {_tk}: G(T x) = M_T G(x) after Mesh.assemble()", FIXED.get(f"C09/{_name}/{_tk}")))
